@@ -131,6 +131,19 @@ fn linear<T: Dom>(vk: VK, k: usize, kind: Kind) {
         }
     }
 }
+/// LaguerreFilter with a symbolic gamma in [0,1): out == ladder re-evaluated with that same gamma (a polynomial identity in gamma and the inputs)
+fn laguerre_filter_sym_gamma<T: Dom>(k: usize) {
+    let g = T::input("gamma");
+    T::assume(Cond::And(vec![le(T::zero(), g), lt(g, T::one())]));
+    let mut v = sliding_features::sliding_windows::LaguerreFilter::new(sliding_features::pure_functions::Echo::<T>::new(), g);
+    let mut h: Vec<T> = vec![];
+    for t in 0..k {
+        let x = T::input(&format!("x{t}"));
+        h.push(x);
+        v.update(x);
+        T::oblige(&format!("LaguerreFilter(gamma symbolic in [0,1)) t={t}: out == the four-stage ladder with that gamma"), opt_eq(v.last(), laguerre_filter_spec(&h, g)));
+    }
+}
 fn laguerre_rsi<T: Dom>(n: usize, k: usize) {
     let mut v = build::<T>(&VK::LaguerreRSI(n), echo());
     let mut h: Vec<T> = vec![];
@@ -221,6 +234,8 @@ pub fn units(tier: Tier, _seed: u64) -> Vec<Unit> {
     }
     if !q { u.push(unit!("C11/Roofing(10,10)/k=40", linear(VK::Roofing(10, 10), 40usize, Kind::Tol(1e-5)))); }
     for g in [0.0, 0.5, 0.8] { u.push(unit!(format!("C11/LaguerreFilter({g})/k=12"), linear(VK::LaguerreFilter(g), 12usize, Kind::Exact))); }
+    u.push(unit!("C11/LaguerreFilter(gamma symbolic)/k=5", laguerre_filter_sym_gamma(5usize)));
+    for g in [0.95, 0.995] { u.push(unit!(format!("C11/LaguerreFilter({g})/k=12"), linear(VK::LaguerreFilter(g), 12usize, Kind::Exact))); }
     for &n in &(if q { vec![2usize, 3] } else { vec![2usize, 3, 4, 5, 10] }) { let k = if q { 4 } else { 5 }; u.push(unit!(format!("C11/LaguerreRSI({n})/k={k}"), laguerre_rsi(n, k))); }
     for &n in &(if q { vec![3usize, 4] } else { vec![3usize, 4, 5, 6, 10, 16] }) {
         let k = if q { n + 3 } else { (n + 4).min(12) };
@@ -244,7 +259,7 @@ pub fn units(tier: Tier, _seed: u64) -> Vec<Unit> {
 pub fn meta() -> Meta {
     Meta {
         functions: vec!["SuperSmoother", "RoofingFilter", "LaguerreFilter", "LaguerreRSI", "CyberCycle", "TrendFlex", "ReFlex", "EhlersFisherTransform (identity and Ema(2) average)", "PolarizedFractalEfficiency (identity and Ema(2) average) — each ::{new,update,last}"],
-        bounds: "SuperSmoother/Roofing/CyberCycle: N in {1,2,3,4,10,16,20} (quick) / {1..10,16,20,48} (thorough), k = max(2N+4,12) capped at 40; LaguerreFilter gamma in {0,0.5,0.8}, k=12; LaguerreRSI N in {2,3} / {2..5,10}, k=4/5, all comparison paths (up to the 20000-path cap, reported when hit); TrendFlex/ReFlex N in {3,4} / {3..6,10,16}, k=N+3; EFT N in {2,3} / {2,3,4}; PFE N in {3,4} / {3..6}, k=N+3; inputs unconstrained reals (|x|<=1 where the obligation is a 1e-5 tolerance)",
+        bounds: "SuperSmoother/Roofing/CyberCycle: N in {1,2,3,4,10,16,20} (quick) / {1..10,16,20,48} (thorough), k = max(2N+4,12) capped at 40; LaguerreFilter gamma in {0,0.5,0.8,0.95,0.995}, k=12, and symbolic gamma in [0,1), k=5; LaguerreRSI N in {2,3} / {2..5,10}, k=4/5, all comparison paths (up to the 20000-path cap, reported when hit); TrendFlex/ReFlex N in {3,4} / {3..6,10,16}, k=N+3; EFT N in {2,3} / {2,3,4}; PFE N in {3,4} / {3..6}, k=N+3; inputs unconstrained reals (|x|<=1 where the obligation is a 1e-5 tolerance)",
         outside: vec!["window lengths and stream lengths beyond those listed", "f64 rounding", "TrendFlex/ReFlex below N=3 (the crate's window then holds fewer than the two previous smoother values the recursion reads)"],
         assumptions: vec!["reference coefficients use the same libm (exp, cos, sin of concrete arguments) as the crate, so a changed literal or formula shows as a different rational coefficient", "where the crate writes the truncated literal 4.4422 for 1.414*pi (SuperSmoother, Roofing) the obligation is |impl - spec| <= 1e-5 on |x| <= 1", "sqrt exact (axiomatised), ln uninterpreted with congruence"],
     }
